@@ -56,4 +56,11 @@ def ReqM.run {σ α} (B : Backend σ) (mode : TxnMode) (p : ReqM α) (s : σ) : 
   let q := p.runC B mode s
   (q.1, q.2.1)
 
+/-- number of transactions a request opens when run on state `s` -/
+def ReqM.txnCount {σ α} (B : Backend σ) (mode : TxnMode) : ReqM α → σ → Nat
+  | .done _, _ => 0
+  | .txn cl body k, s =>
+    let r := body.run B mode cl s
+    1 + (k r.1).txnCount B mode r.2
+
 end Tcs
